@@ -101,6 +101,12 @@ func (p *Proxy) Connect(ctx context.Context) error {
 func (p *Proxy) Run(ctx context.Context) error {
 	defer p.closeConnections()
 	handler := NewHandlerMining(p)
+	if p.pipe != nil {
+		// Run is started again after it exited with a destination error; the change back to the
+		// primary destination in between has restarted the old pipe: stop it, or two loops read the source
+		<-p.pipe.StopSourceToDest()
+		<-p.pipe.StopDestToSource()
+	}
 	p.pipe = NewPipe(p.source, p.dest, handler.sourceInterceptor, handler.destInterceptor, p.log)
 
 	for {
